@@ -556,7 +556,7 @@ func checkCmd(args []string) int {
 			"obligations_by_kind":    byKind,
 			"ground_families":        tdefs,
 			"scenarios_executed":     scenCount,
-			"exhaustive":             true,
+			"exhaustive":             len(templates) > 0, // ground families enumerate their finite domains completely
 			"solver_queries":         d.Stats.BySolver,
 			"solver_ms":              d.Stats.MillisBy,
 			"solver_processes":       d.Stats.Processes,
